@@ -353,9 +353,28 @@ def run(corrupt=None):
             return
         orig = P._sample_tree_from_swarm
 
+        import phyclone.run as prun
+        from phyclone.tree import FSCRPDistribution, TreeJointDistribution
+        saved_run = {n_: getattr(prun, n_) for n_ in ("update_concentration_value", "append_to_trace")}
+
+        # the CHAIN's distribution object (the one the concentration update writes to) - a sampler working on its own
+        # copy of it would never see an update
+        def upd(conc_sampler, tree, tree_dist):
+            saved_run["update_concentration_value"](conc_sampler, tree, tree_dist)
+            found["alpha_now"] = float(tree_dist.prior.alpha)
+
+        def app(i, timer, trace, tree, tree_dist):
+            found["alpha_now"] = float(tree_dist.prior.alpha)
+            return saved_run["append_to_trace"](i, timer, trace, tree, tree_dist)
+
+        prun.update_concentration_value = upd
+        prun.append_to_trace = app
+
         def sel(self, swarm):
             try:
                 td = self.kernel.tree_dist
+                if found.get("alpha_now") is not None:
+                    td = TreeJointDistribution(FSCRPDistribution(found["alpha_now"]))
                 items = [(float(td.log_p_one(p_.tree)), float(p_.log_p_one)) for p_ in swarm.particles]
             except AttributeError:      # the swarm / particle protocol changed: nothing to compare
                 items = []
@@ -371,6 +390,8 @@ def run(corrupt=None):
             yield
         finally:
             P._sample_tree_from_swarm = orig
+            for n_, f_ in saved_run.items():
+                setattr(prun, n_, f_)
 
     nflow = 0
     for k, o in enumerate([dict(proposal=p, outlier_prob=op, num_iters=(12 if thorough else 6), thin=2, subtree_update_prob=0.3)
